@@ -31,7 +31,9 @@ func init() {
 			"offsets, neighbour block flags and increments enumerate the corners in the order the tables assume. PAIR-1/SYM-ALG: every emitted vertex " +
 			"is the affine interpolant of the two corners of one edge entry (rational-function identity). AXIS-1/2: x/y/z components reach index(), " +
 			"VectorInt{} and vector3.New in axis order on the AddField+March path. XB-1..7: the corner fetch across block boundaries pairs each axis " +
-			"with itself, selects the neighbour exactly on the last cell, skips a cell only when a neighbour is missing. SYM-STRIDE: index() is a " +
+			"with itself, selects the neighbour exactly on the last cell, skips a cell only when a neighbour is missing. CELL-1: no decision that keeps " +
+			"a cell, a row or a whole block from reaching the case-table walk depends on stored samples other than that cell's own eight corner samples " +
+			"(a block whose own samples are all outside still owns cells whose far corners lie in the next block). SYM-STRIDE: index() is a " +
 			"bijection onto the S³ cells of a block and every S in the code agrees; writer and reader place a sample at the same world cell. " +
 			"CHUNK-1/RANGE-1/2/ALLOC-1: floor-division block coordinates, per-block clamps and the block list cover exactly the padded domain; the " +
 			"block allocator is a correct lookup-or-add. PAD-1/2: one padding cell on each side on all axes. MERGE-1/WELD-1/SHARE-1/SCALE-1: vertices " +
@@ -127,6 +129,7 @@ func run(c *props.Ctx) {
 	strideRules(c, path, blockSite)
 	padRule(c, path, allSites)
 	weldRules(c, path, blockSite)
+	cellRule(c, blockSite)
 	engineSelfTest(c, t)
 	siteControls(c, ctl, ax)
 	fieldIdxRules(c, sp, blockSite == nil || blockSite.inside)
@@ -159,6 +162,7 @@ func run(c *props.Ctx) {
 	c.R.Floor("XB-5", 3)
 	c.R.Floor("XB-6", 1)
 	c.R.Floor("XB-7", 2)
+	c.R.Floor("CELL-1", 10)
 	c.R.Floor("POL-1", 1)
 	c.R.Floor("CHUNK-1", 2)
 	c.R.Floor("RANGE-1", 8)
